@@ -232,7 +232,10 @@ def elemHex (w : Nat) (x : Str) : R Str :=
 
 def multi (w : Nat) (value : Str) : R (List Str) :=
   if !(value.contains ',') then .error .valueType
-  else ((splitOn ',' value).filter (· != [])).mapM (elemHex w)
+  else
+    match ((splitOn ',' value).filter (· != [])).mapM (elemHex w) with
+    | .ok hs => if w == 2 && hs.any (fun h => h.length > 2) then .error .valueType else .ok hs   -- "must fit in 8 bits" (after the repair)
+    | .error e => .error e
 
 /-- `Value.create_from_str(value, instruction, default_mode_extended)`; the instruction enters only through
 `is_string_define` and `is_16_bit`. fuel bounds the depth-2 recursion through ExpressionValue. -/
@@ -299,7 +302,7 @@ def Value.resolve (v : Value) (t : SymTab) : R Value :=
         match s with
         | .numeric i _ _ _ => numericOfInt i Option.none .none    -- NumericValue(symbol.int)
         | _ => .error .other
-      else .ok .pyNone
+      else .error .other                                        -- ValueError: "does not have a value" (after the repair)
   | .expr l r op mode _ =>
     let look (x : Value) : R Value :=
       match x with
